@@ -208,6 +208,22 @@ def check_filltext_clauses(ctx: Ctx, text, mode, W, extra, empty, ic, out: str) 
         ctx.fail("FT_LOSSLESS: fill_text changed the word sequence", case, out)
         return
     sub = extra + {"markdown_item": "  ", "wrap_indent": "    ", "hanging_indent": "    "}.get(mode, "")
+    # INDENT: every line carries the configured first-line or continuation indent (extra_indent included); in the hanging modes
+    # only the very first paragraph starts at the first-line indent
+    if empty.strip() == "" and paras and W - len(sub) > 0:      # (width ≤ 0 is the NOWRAP clause below, with its known finding)
+        pieces = out.split(sep)
+        if len(pieces) == len(paras):
+            first = extra + ("    " if mode == "wrap_indent" else "")
+            for i, pc in enumerate(pieces):
+                ls = pc.split("\n")
+                want0 = sub if (mode in ("hanging_indent", "markdown_item") and i > 0) else first
+                bad = [l for l in ls[1:] if not l.startswith(sub)]
+                if ic == 0 and not ls[0].startswith(want0):
+                    bad.append(ls[0])
+                if bad:
+                    ctx.fail("FT_INDENT: a line of fill_text's output does not carry its configured indent", case,
+                             {"paragraph": i, "line": bad[0], "first_indent": want0, "continuation_indent": sub, "out": out})
+                    return
     if W - len(sub) <= 0:
         # exactly one line per paragraph: pieces between separators are the paragraphs, none multi-line
         pieces = out.split(sep) if paras else ([] if out.strip() == "" else [out])
